@@ -204,4 +204,17 @@ let () =
              go (expr_of (Sexp.parse xs_));
              (match !out with [] -> ["-"] | l -> List.rev l)
          | _ -> failwith "spec_kinds: expected 4 sections")
-    | _ -> failwith "spec_kinds: arity")
+    | _ -> failwith "spec_kinds: arity");
+  (* fl_arith add|sub|mul|div FL ; FL -> FL | none : the IEEE 754 operations of Num.v (fl_add_r ...) *)
+  register "fl_arith" (fun a ->
+    match a with
+    | op :: rest ->
+        (match sections rest with
+         | [xs_; ys_] ->
+             let x = fl_of (Sexp.parse xs_) and y = fl_of (Sexp.parse ys_) in
+             let r = (match op with
+                      | "add" -> fl_add_r x y | "sub" -> fl_sub_r x y | "mul" -> fl_mul_r x y | "div" -> fl_div_r x y
+                      | _ -> failwith "fl_arith: bad op") in
+             (match r with Some f -> [Sexp.to_string (fl_to f)] | None -> ["none"])
+         | _ -> failwith "fl_arith: expected FL ; FL")
+    | _ -> failwith "fl_arith: arity")
